@@ -11,7 +11,8 @@ RULE = ('Hypothesis generates DAG case specs (1-10 nodes over types with max_par
         'dependencies of other requested nodes; max_workers; pre-cached subset; bust_cache; context; completion '
         'schedule) and runs each under the schedule-controlling in-process Runner, and sampled ones under the real '
         'serial / fork / spawn backends in processes with different hash seeds. Engine "two-runs": a second run_tasks call on the '
-        'SAME task objects (same Lab object or a new Lab on the same storage) with another nonce, with/without bust_cache. Oracle: returned keys == request '
+        'SAME task objects (same Lab object or a new Lab on the same storage) with another nonce, with/without bust_cache. Engine "twins": some nodes get a twin of an inheriting task type with exactly the same field '
+        'values (two tasks that differ only in their type), both read by one dependent. Oracle: returned keys == request '
         'list de-duplicated in order, each value == reference sequential evaluator. Non-trivial = closure of >= 3 '
         'nodes and at least one of: shared dependency, duplicate equal instance, dependency nested at container '
         'depth >= 2, requested node that is also a dependency, non-empty proper pre-cached subset. Distinct = '
@@ -42,6 +43,8 @@ def check(spec: dict) -> core.CaseResult:
         labels.append('nested_depth>=2')
     if spec['lab'].get('bust_cache'):
         labels.append('bust_cache')
+    if spec.get('twins'):
+        labels.append('inheritance_twins')
     return dagprop.result(obs, findings, nt, labels, hang_is_violation=False, prop='C01')
 
 
@@ -80,6 +83,9 @@ def plan(tier: str) -> list[dict]:
     jobs.append({'engine': 'two-runs:serial', 'n': 80 if q else 2500, 'hashseed': 5})
     jobs.append({'engine': 'two-runs:controlled', 'n': 80 if q else 2500, 'hashseed': 6})
     jobs.append({'engine': 'two-runs:fork', 'n': 14 if q else 400, 'hashseed': 7})
+    jobs.append({'engine': 'twins:controlled', 'n': 100 if q else 2500, 'hashseed': 0})
+    jobs.append({'engine': 'twins:serial', 'n': 40 if q else 1000, 'hashseed': 1})
+    jobs.append({'engine': 'twins:fork', 'n': 10 if q else 300, 'hashseed': 2})
     return list(jobs) + dagprop.exhaustive_jobs(tier, 4)
 
 
@@ -94,6 +100,11 @@ def run_job(rec: core.Recorder, job: dict, seed: int) -> None:
         strat = st.builds(lambda sp, same, bust: {**sp, 'second': {'same_lab': same, 'bust': bust}},
                           specs.dag_spec(max_nodes=7, backends=(b,), dup_bias=(seed % 2 == 0), storages=('local', 'local', 'none')), st.booleans(), st.booleans())
         core.run_hypothesis(rec, eng, strat, check_two_runs, max_examples=job['n'], seed=seed, shrink=(b != 'fork' or rec.tier == 'thorough'))
+        return
+    if eng.startswith('twins:'):
+        b = eng.split(':')[1]
+        core.run_hypothesis(rec, eng, specs.twin_spec(max_nodes=6, backends=(b,)), check, max_examples=job['n'], seed=seed,
+                            shrink=(b != 'fork' or rec.tier == 'thorough'))
         return
     small = eng == 'spawn'
     strat = specs.dag_spec(max_nodes=5 if small else 10, backends=(eng,), dup_bias=(seed % 2 == 0))
